@@ -441,7 +441,16 @@ class Annotate(ast.NodeTransformer):
         return n
 
 
+COMBOS = {"combo": ["flipcmp", "invertif", "rename3", "extractcond", "annotate", "kwify", "aug2plain", "ternary2if", "logcall", "attrrename"],
+          "combo2": ["rename2", "cellify", "earlyreturn", "if2ternary", "plain2aug", "positionalise", "docstring", "noop", "attrrename", "flipcmp"]}
+
+
 def transform(root, kind):
+    if kind in COMBOS:
+        n = 0
+        for k_ in COMBOS[kind]:
+            n = transform(root, k_)
+        return n
     n = 0
     pda = private_data_attrs(root) if kind == "attrrename" else None
     for dp, _, fns in os.walk(os.path.join(root, "reactivex")):
@@ -514,13 +523,7 @@ def main():
         tmp = tempfile.mkdtemp(prefix="rxsa_rf_")
         try:
             shutil.copytree("/repo/reactivex", os.path.join(tmp, "reactivex"), ignore=shutil.ignore_patterns("__pycache__"))
-            if kind.startswith("combo"):
-                chain = {"combo": ["flipcmp", "invertif", "rename3", "extractcond", "annotate", "kwify", "aug2plain", "ternary2if", "logcall", "attrrename"],
-                         "combo2": ["rename2", "cellify", "earlyreturn", "if2ternary", "plain2aug", "positionalise", "docstring", "noop", "attrrename", "flipcmp"]}[kind]
-                for k_ in chain:
-                    n = transform(tmp, k_)
-            else:
-                n = transform(tmp, kind)
+            n = transform(tmp, kind)
             env = dict(os.environ, RXSA_REPO=tmp, RXSA_EVID_DIR=os.path.join(tmp, "evidence"))
             out = subprocess.run([sys.executable, os.path.join(V, "tools", "run_all.py"), "quick"], env=env, capture_output=True, text=True).stdout
             lines = [l for l in out.splitlines() if " rc=" in l and " rc=0 " not in l]
